@@ -18,10 +18,13 @@ pub struct C03;
 pub enum Case {
     Structured { spec: ProgSpec, input: Vec<u8>, layout: Layout, via_source: bool },
     Image { orig: u16, words: Vec<u16>, input: Vec<u8>, stack: bool },
+    /// the real binary with a pseudo-terminal as standard input: `keys` are typed one at a time
+    /// while the program waits for a key (the interactive path of GETC / IN)
+    Terminal { spec: ProgSpec, keys: Vec<char>, layout: Layout },
 }
 
 pub fn input_bytes() -> impl Strategy<Value = Vec<u8>> {
-    prop::collection::vec(prop_oneof![6 => 0x20u8..0x7F, 1 => Just(b'\n'), 1 => Just(0u8), 2 => 0x80u8..=0xFF, 1 => any::<u8>()], 0..6)
+    prop::collection::vec(crate::pick![6 => 0x20u8..0x7F, 1 => Just(b'\n'), 1 => Just(0u8), 2 => 0x80u8..=0xFF, 1 => any::<u8>()], 0..6)
 }
 
 /// What the reference run and the image look like for a case.
@@ -47,6 +50,7 @@ pub fn prepare(c: &Case) -> Result<Prepared, &'static str> {
             let source = if *via_source { Some(refasm::render(&built.program, *layout).text) } else { None };
             Ok(Prepared { orig: img.orig.unwrap_or(0x3000), words: img.words, stack: built.stack, input: input.clone(), source })
         }
+        Case::Terminal { .. } => Err("terminal case (judged separately)"),
         Case::Image { orig, words, input, stack } => {
             if *orig as usize + words.len() + 1 > 0x10000 {
                 return Err("image does not fit");
@@ -75,7 +79,103 @@ pub fn snap_diff(l: &Snapshot, vm: &Vm) -> Option<String> {
     None
 }
 
+/// GETC / IN fed from an interactive terminal: every key contributes its UTF-8 bytes, one byte per
+/// trap (a non-ASCII byte reads as U+FFFD), and everything else is as in a piped run.
+fn judge_terminal(spec: &ProgSpec, keys: &[char], layout: Layout) -> Obs {
+    use crate::cli::{self, TempDir};
+    let mut obs = Obs::default();
+    obs.label("terminal-input");
+    let built = proggen::build(spec);
+    let img = match refasm::judge(&built.program, built.stack) {
+        Verdict::Accept(img) => img,
+        Verdict::Reject(why) | Verdict::Unspecified(why) | Verdict::Either(_, why) => {
+            obs.excluded = Some(why);
+            return obs;
+        }
+    };
+    let orig = img.orig.unwrap_or(0x3000);
+    if orig as usize + img.words.len() + 1 > 0x10000 {
+        obs.excluded = Some("image does not fit");
+        return obs;
+    }
+    let input: Vec<u8> = keys.iter().collect::<String>().into_bytes();
+    let rr = refvm::run(Vm::load(orig, &img.words, built.stack), &input, 20_000, Some(0xFFFD));
+    if !matches!(rr.stop, RunStop::Normal | RunStop::Exit(_)) {
+        obs.excluded = Some("not a terminating, fully specified run (a terminal never reaches end of input)");
+        return obs;
+    }
+    // the keys typed are exactly those whose bytes the run consumes: none may be left half-read
+    let mut used = 0usize;
+    let mut nkeys = 0usize;
+    for k in keys {
+        if used >= rr.consumed {
+            break;
+        }
+        used += k.len_utf8();
+        nkeys += 1;
+    }
+    if used != rr.consumed {
+        obs.excluded = Some("the run ends in the middle of a multi-byte key");
+        return obs;
+    }
+    if rr.executed_reg_trap && rr.printed_escape {
+        obs.excluded = Some("REG and ESC in one run");
+        return obs;
+    }
+    let text = refasm::render(&built.program, layout).text;
+    let shown = format!("keys {:?} stack={}\n{text}", &keys[..nkeys], built.stack);
+    obs.show = Some(shown.clone());
+    obs.key = hash_of(&(&text, keys));
+    obs.nontrivial = nkeys >= 2 && keys[..nkeys].iter().any(|k| k.len_utf8() > 1) && rr.consumed >= 3;
+    if keys[..nkeys].iter().any(|k| k.len_utf8() > 1) {
+        obs.label("terminal-multi-byte-key");
+    }
+    let dir = TempDir::new();
+    dir.write("prog.asm", text.as_bytes());
+    let mut args = vec!["run", "prog.asm"];
+    if rr.executed_reg_trap {
+        args.push("--minimal");
+    }
+    if built.stack {
+        args.extend(["-f", "stack"]);
+    }
+    let typed: Vec<Vec<u8>> = keys[..nkeys].iter().map(|k| k.to_string().into_bytes()).collect();
+    let (run, ntyped) = cli::lace_tty(&args, dir.path(), &typed, false, 30);
+    if run.timed_out {
+        // waiting for a key that the reference says is never read, or a hang: not a verdict by itself
+        if ntyped < nkeys {
+            obs.excluded = Some("watchdog");
+        } else {
+            obs.set_fail("C03:terminal-run-waits-for-more-keys", format!("all {nkeys} keys the reference run reads were typed, yet the program still waits\n{}\n{shown}", run.brief()));
+        }
+        return obs;
+    }
+    if run.panicked() {
+        obs.set_fail("C03:terminal-run-crashes", format!("{}\n{shown}", run.brief()));
+        return obs;
+    }
+    if run.code != super::c06::expected_code(&rr.stop) {
+        obs.set_fail("C03:terminal-run-wrong-exit-status", format!("exit {:?}, the reference machine gives {:?}\n{}\n{shown}", run.code, super::c06::expected_code(&rr.stop), run.brief()));
+        return obs;
+    }
+    if ntyped != nkeys {
+        obs.set_fail("C03:terminal-run-reads-fewer-keys", format!("the program ended after {ntyped} keys; the reference run reads {nkeys}\n{}\n{shown}", run.brief()));
+        return obs;
+    }
+    let want = super::c06::expected_stdout("prog.asm", &rr);
+    if let Err(at) = match_out(&want, &decode_out(&run.stdout)) {
+        obs.set_fail(
+            "C03:terminal-run-wrong-output",
+            format!("output differs at character {at}: got {:?}, expected {:?}\n{shown}", String::from_utf8_lossy(&run.stdout), refvm::out_to_string(&want)),
+        );
+    }
+    obs
+}
+
 pub fn judge_case(c: &Case, budget: u64) -> Obs {
+    if let Case::Terminal { spec, keys, layout } = c {
+        return judge_terminal(spec, keys, *layout);
+    }
     let mut obs = Obs::default();
     let p = match prepare(c) {
         Ok(p) => p,
@@ -90,10 +190,16 @@ pub fn judge_case(c: &Case, budget: u64) -> Obs {
         None => format!("orig x{:04X} stack={} input {:?} words {:04X?}", p.orig, p.stack, p.input, p.words),
     };
     obs.show = Some(shown.clone());
+    if let Case::Structured { spec, .. } = c {
+        if let Some(l) = proggen::fit_label(spec) {
+            obs.label(l);
+        }
+    }
     match c {
         Case::Structured { via_source: true, .. } => obs.label("structured-via-assembler"),
         Case::Structured { .. } => obs.label("structured-loaded-raw"),
         Case::Image { .. } => obs.label("arbitrary-image"),
+        Case::Terminal { .. } => {}
     }
     let loaded_ref = Vm::load(p.orig, &p.words, p.stack);
     let mut rr = refvm::run(loaded_ref.clone(), &p.input, budget, Some(0xFFFD));
@@ -258,7 +364,7 @@ fn compare(rr: &refvm::RefRun, out: &lacebox::Outcome, p: &Prepared, budget: u64
 }
 
 pub fn image_words() -> impl Strategy<Value = Vec<u16>> {
-    let word = prop_oneof![
+    let word = crate::pick![
         3 => any::<u16>(),
         // opcode-weighted, never RTI
         6 => (prop::sample::select(vec![0u16, 1, 2, 3, 4, 5, 6, 7, 9, 10, 11, 12, 13, 14, 15]), any::<u16>()).prop_map(|(op, r)| op << 12 | (r & 0x0FFF)),
@@ -272,7 +378,7 @@ pub fn image_words() -> impl Strategy<Value = Vec<u16>> {
 }
 
 pub fn image_origin() -> impl Strategy<Value = u16> {
-    prop_oneof![
+    crate::pick![
         3 => Just(0x3000u16),
         1 => Just(0u16),
         1 => Just(0xFDFFu16),
@@ -284,7 +390,7 @@ pub fn image_origin() -> impl Strategy<Value = u16> {
 }
 
 fn cases() -> impl Strategy<Value = Case> {
-    prop_oneof![
+    crate::pick![
         5 => (proggen::prog_spec(40), input_bytes(), crate::gen::layout(), any::<bool>())
             .prop_map(|(spec, input, layout, via_source)| Case::Structured { spec, input, layout, via_source }),
         4 => (image_origin(), image_words(), input_bytes(), any::<bool>()).prop_map(|(orig, mut words, input, stack)| {
@@ -295,13 +401,35 @@ fn cases() -> impl Strategy<Value = Case> {
     ]
 }
 
+/// Programs that read several keys and show what they got, and the keys to type: printable ASCII
+/// and 2-, 3- and 4-byte characters.
+fn terminal_cases() -> impl Strategy<Value = Case> {
+    let key = crate::pick![
+        5 => (0x20u32..0x7F).prop_map(|c| char::from_u32(c).unwrap()),
+        3 => prop::sample::select(vec!['é', 'ß', 'λ', '日', '€', '😀', '\u{7FF}', '\u{800}', '\u{FFFD}', '\u{10000}']),
+    ];
+    (proggen::prog_spec(8), prop::collection::vec((any::<u16>(), any::<bool>()), 2..6), prop::collection::vec(key, 6..12), crate::gen::layout()).prop_map(|(mut spec, reads, keys, layout)| {
+        // no other input traps (their position relative to the shown ones is immaterial here)
+        spec.main.retain(|op| !matches!(op, proggen::PgOp::In(_)));
+        for s in &mut spec.subs {
+            s.retain(|op| !matches!(op, proggen::PgOp::In(_) | proggen::PgOp::InShow(_)));
+        }
+        for (at, echo) in reads {
+            let i = (at as usize * (spec.main.len() + 1)) >> 16;
+            spec.main.insert(i, proggen::PgOp::InShow(echo));
+        }
+        spec.fit = 0;
+        Case::Terminal { spec, keys, layout }
+    })
+}
+
 impl Prop for C03 {
     fn id(&self) -> &'static str {
         "C03"
     }
     fn rule(&self) -> &'static str {
         "Cases: (a) ProgGen structured programs that terminate by construction (ALU/memory blocks, counted loops nested up to 3, forward skips, JSR/JSRR/RET and CALL/RETS subroutines incl. bounded recursion, self-modifying stores, OUT/PUTS/PUTSP/PUTN/REG/GETC/IN, endings: HALT, run off the end, computed jump to 0xFFFF / below the origin / >= 0xFE00, unknown trap, raw 0xD word, HALT in the middle), \
-         run through lace's assembler or encoded by RefAsm and loaded raw; (b) arbitrary word images (uniform, opcode-weighted, near-PC control flow, traps) at origins 0..=0xFDFF (edges forced); input streams with ASCII, NUL, non-ASCII bytes and too few bytes. \
+         run through lace's assembler or encoded by RefAsm and loaded raw; (b) arbitrary word images (uniform, opcode-weighted, near-PC control flow, traps) at origins 0..=0xFDFF (edges forced); input streams with ASCII, NUL, non-ASCII bytes and too few bytes; (c) the real binary with a pseudo-terminal as standard input (the interactive path of GETC / IN): programs that read 2-5 keys and print R0 after each, keys typed one at a time while the program waits - printable ASCII and 2-, 3- and 4-byte characters (each byte of a key is one read, a non-ASCII byte reads as U+FFFD): exit status, output and the number of keys consumed against RefVM. \
          Oracle: RefVM — full snapshot right after load; stop reason and exit status; number of executed instructions; output character for character; input bytes consumed; full final snapshot (registers, PC, CC, 65,536 words); under a fuel of N loop iterations (out of fuel after exactly N instructions is a comparable outcome). \
          Non-trivial: >= 20 instructions executed and at least one of: taken backward branch, subroutine return, store into code that is later executed, trap output, input read, abnormal ending. Distinct = hash(origin, words, input, flag)."
     }
@@ -313,10 +441,21 @@ impl Prop for C03 {
             "non-termination is decided by deterministic fuel (hook H3), never by a timer".into(),
         ]
     }
+    fn needs_cli(&self) -> bool {
+        true
+    }
     fn run_worker(&self, ctx: &Ctx, rep: &mut Report) {
         let budget = ctx.tier.pick(5_000, 50_000);
         let n = ctx.share(ctx.tier.pick(60_000, 600_000));
         drive(ctx, rep, "runs", cases(), n, &mut |c: &Case| judge_case(c, budget));
+        // the interactive input path: the real binary on a pseudo-terminal
+        std::env::set_var("VERIF_MAX_SHRINK", "40");
+        let n = ctx.share(ctx.tier.pick(160, 3000));
+        drive(ctx, rep, "terminal-input", terminal_cases(), n, &mut |c: &Case| judge_case(c, budget));
+        std::env::remove_var("VERIF_MAX_SHRINK");
+    }
+    fn fuzz_strategy(&self) -> Option<BoxedStrategy<Value>> {
+        Some(crate::fuzzmode::jv(cases()))
     }
     fn replay(&self, ctx: &Ctx, case: &Value) -> Obs {
         match serde_json::from_value::<Case>(case.clone()) {
